@@ -8,9 +8,11 @@ import (
 	"io"
 	"iter"
 	"log/slog"
+	"path"
 	"runtime"
 	"runtime/debug"
 	"slices"
+	"strconv"
 	"strings"
 	"sync"
 
@@ -318,6 +320,17 @@ func (t *Table) Age() uint64 {
 
 func (t *Table) Name() string {
 	return t.file.Name()
+}
+
+// FileNumber returns the number in the table's file name (NNNNNN.sst), which is
+// the number its TableWriter gave it. ok is false for any other name.
+func (t *Table) FileNumber() (n int64, ok bool) {
+	name := path.Base(t.file.Name())
+	if !strings.HasSuffix(name, ".sst") {
+		return 0, false
+	}
+	n, err := strconv.ParseInt(strings.TrimSuffix(name, ".sst"), 10, 64)
+	return n, err == nil && n >= 0
 }
 
 func (t *Table) URI() string {
